@@ -32,7 +32,7 @@ def run(ctx):
     # the prefix write: `insert(0, tag)`, or a `push(tag)` that precedes every payload write
     ins = [c for c in e.calls() if (c.method or "") == "insert" and "Vec" in (c.target_path or "") and not e.is_cleanup(c.bb)]
     ins += [c for c in e.calls() if (c.method or "") == "push" and "Vec" in (c.target_path or "") and not e.is_cleanup(c.bb)
-            and ext and all(e.dominates(c.bb, x.bb) and c.bb != x.bb for x in ext)]
+            and ext and all(e.sdominates(c.bb, x.bb) and c.bb != x.bb for x in ext)]
     from terms import paired_alternatives
     for c in ins:
         # the extend_from_slice reached from this insert without passing another insert
@@ -172,7 +172,7 @@ def run(ctx):
          "encoder uses %s, decoder %s" % (sorted(e_eng), sorted(d_eng)), sample={"rule": "WIRE", "row": "base64 engine", "writer": sorted(e_eng), "reader": sorted(d_eng)})
     # padding stripped before decode
     so = [c for c in d.calls() if (c.method or "") == "split_once" and not d.is_cleanup(c.bb)]
-    R.ob(bool(so) and bool(db_) and all(d.dominates(so[0].bb, c.bb) for c in db_) and (origin(d, so[0].args[1])[0] == "const" and origin(d, so[0].args[1])[1] in (61, "=")), "DOM-before", d.where(), "DOM-before|inscription|padding<decode",
+    R.ob(bool(so) and bool(db_) and all(d.sdominates(so[0].bb, c.bb) for c in db_) and (origin(d, so[0].args[1])[0] == "const" and origin(d, so[0].args[1])[1] in (61, "=")), "DOM-before", d.where(), "DOM-before|inscription|padding<decode",
          "'=' padding is not stripped before base64 decoding", sample={"rule": "DOM-before", "a": "split_once('=')", "b": "base64 decode"})
     # only one decode path: decode_bytes_from_inscription_data is called only by Base64Bytes::value
     callers = [(f, c) for f in F.body_fns() for c in f.calls() if c.target_id == d.id]
